@@ -85,6 +85,13 @@ where
                   junk_complete!(),
                 ),
             );
+            if !sctl_next.is_subscribed() {
+              // the stream ended (on another thread) while the timer was being armed
+              let t = timer.write().unwrap().take();
+              if let Some(t) = t {
+                t.unsubscribe();
+              }
+            }
           }
         },
         move |_, e| {
